@@ -364,9 +364,7 @@ configuration is the last one that was installed -/
 theorem steps_inv (sts : List Step) (s0 s : State)
     (h0 : maxLogLevel s0.cfg = some s0.globalMax) (h : steps true s0 sts = some s) :
     maxLogLevel s.cfg = some s.globalMax ∧
-      s.cfg = (s0.cfg :: sts.filterMap fun
-        | .setConfig c => some c
-        | .reinit _ _ => none).getLast (by simp) := by
+      s.cfg = (s0.cfg :: sts.filterMap Step.installs).getLast (by simp) := by
   induction sts generalizing s0 with
   | nil =>
     simp only [steps, Option.some.injEq] at h
@@ -384,24 +382,39 @@ theorem steps_inv (sts : List Step) (s0 s : State)
         obtain ⟨r1, r2⟩ := ih s' (hc ▸ hm) h
         refine ⟨r1, ?_⟩
         rw [r2, hc]
-        simp [List.getLast_cons_cons]
+        simp [Step.installs, List.getLast_cons_cons]
     | reinit p c =>
       simp only [steps, step, reinit, if_true] at h
       obtain ⟨r1, r2⟩ := ih s0 h0 h
-      exact ⟨r1, by simpa using r2⟩
+      exact ⟨r1, by rw [r2]; simp [List.filterMap_cons, Step.installs]⟩
+    | reload c =>
+      simp only [steps, step] at h
+      cases hi : install c with
+      | none => simp [hi] at h
+      | some s' =>
+        simp only [hi] at h
+        obtain ⟨hc, hm⟩ := install_inv hi
+        obtain ⟨r1, r2⟩ := ih s' (hc ▸ hm) h
+        refine ⟨r1, ?_⟩
+        rw [r2, hc]
+        simp [Step.installs, List.getLast_cons_cons]
 
 theorem steps_total (sts : List Step) (s0 : State)
-    (hv : ∀ c, Step.setConfig c ∈ sts → Valid c) : (steps true s0 sts).isSome = true := by
+    (hv : ∀ st ∈ sts, ∀ c, st.installs = some c → Valid c) : (steps true s0 sts).isSome = true := by
   induction sts generalizing s0 with
   | nil => rfl
   | cons st sts ih =>
     cases st with
     | setConfig c =>
-      obtain ⟨s', hs'⟩ := install_of_valid c (hv c (by simp))
+      obtain ⟨s', hs'⟩ := install_of_valid c (hv _ List.mem_cons_self c rfl)
       simp only [steps, step, hs']
-      exact ih s' (fun x hx => hv x (by simp [hx]))
+      exact ih s' (fun x hx => hv x (List.mem_cons_of_mem _ hx))
     | reinit p c =>
       simp only [steps, step]
-      exact ih _ (fun x hx => hv x (by simp [hx]))
+      exact ih _ (fun x hx => hv x (List.mem_cons_of_mem _ hx))
+    | reload c =>
+      obtain ⟨s', hs'⟩ := install_of_valid c (hv _ List.mem_cons_self c rfl)
+      simp only [steps, step, hs']
+      exact ih s' (fun x hx => hv x (List.mem_cons_of_mem _ hx))
 
 end Log4rs.Routing.Tree
